@@ -314,6 +314,122 @@ theorem local_stamp_wrong (byDriver : Bool) (t off : Int) (h : off ≠ 0) :
     denoted (!byDriver) byDriver ⟨byDriver, t, off⟩ ≠ t ∨ denoted byDriver (!byDriver) ⟨byDriver, t, off⟩ ≠ t := by
   cases byDriver <;> simp [denoted, stamp] <;> omega
 
+
+/-! ## 6. The recorded delta lies within what the node declares (C07 ∘ C01) -/
+
+/-- If every key outside `S` has the same value before and after, every created or updated key is in `S`. -/
+theorem delta_within (pre post : Ctx) (S : String → Prop) (hframe : ∀ k, ¬ S k → post.get k = pre.get k) :
+    (∀ k ∈ createdKeys pre post, S k) ∧ (∀ k ∈ updatedKeys pre post, S k) := by
+  refine ⟨?_, ?_⟩
+  · intro k hk
+    apply Classical.byContradiction
+    intro hS
+    obtain ⟨hpost, hpre⟩ := (created_iff pre post k).mp hk
+    have := hframe k hS
+    simp only [Ctx.has, Ctx.get] at hpost hpre this
+    rw [this] at hpost
+    rw [hpost] at hpre; cases hpre
+  · intro k hk
+    apply Classical.byContradiction
+    intro hS
+    obtain ⟨a, b, ha, hb, hab⟩ := (updated_iff pre post k).mp hk
+    have := hframe k hS
+    rw [ha, hb] at this
+    exact hab (Option.some.inj this).symm
+
+/-- **An operation's SER** lists only keys the operation declares. -/
+theorem ser_delta_operation (tbl stbl : ResolveTable) (n : Node) (s : Data × Ctx) (hk : n.kind = .operation)
+    (hok : (viewOf tbl stbl n s).ok = true) :
+    ∀ k, k ∈ (viewOf tbl stbl n s).created ∨ k ∈ (viewOf tbl stbl n s).updated → n.declared.contains k = true := by
+  obtain ⟨d, c⟩ := s
+  cases hstep : step tbl n (d, c) with
+  | error e => simp [viewOf, hstep] at hok
+  | ok s' =>
+    obtain ⟨d', c'⟩ := s'
+    have hframe := (operation_frames_context tbl n d d' c c' hk hstep).2
+    have := delta_within c c' (fun k => n.declared.contains k = true) (by
+      intro k hS; exact hframe k (by simpa using hS))
+    intro k hk'
+    simp only [viewOf, after, hstep] at hk'
+    rcases hk' with h | h
+    · exact this.1 k h
+    · exact this.2 k h
+
+/-- **A rename's SER** lists only its two keys; **a template's** only its output key; **a delete's** lists nothing. -/
+theorem ser_delta_rename (tbl stbl : ResolveTable) (n : Node) (src dst : String) (s : Data × Ctx)
+    (hk : n.kind = .rename src dst) (hok : (viewOf tbl stbl n s).ok = true) :
+    ∀ k, k ∈ (viewOf tbl stbl n s).created ∨ k ∈ (viewOf tbl stbl n s).updated → k = src ∨ k = dst := by
+  obtain ⟨d, c⟩ := s
+  cases hstep : step tbl n (d, c) with
+  | error e => simp [viewOf, hstep] at hok
+  | ok s' =>
+    obtain ⟨d', c'⟩ := s'
+    have hframe := (rename_touches_only_declared tbl n src dst d d' c c' hk hstep).2
+    have := delta_within c c' (fun k => k = src ∨ k = dst) (by
+      intro k hS; exact hframe k (fun h => hS (Or.inl h)) (fun h => hS (Or.inr h)))
+    intro k hk'
+    simp only [viewOf, after, hstep] at hk'
+    rcases hk' with h | h
+    · exact this.1 k h
+    · exact this.2 k h
+
+theorem ser_delta_template (tbl stbl : ResolveTable) (n : Node) (parts : List TPart) (out : String) (s : Data × Ctx)
+    (hk : n.kind = .template parts out) (hok : (viewOf tbl stbl n s).ok = true) :
+    ∀ k, k ∈ (viewOf tbl stbl n s).created ∨ k ∈ (viewOf tbl stbl n s).updated → k = out := by
+  obtain ⟨d, c⟩ := s
+  cases hstep : step tbl n (d, c) with
+  | error e => simp [viewOf, hstep] at hok
+  | ok s' =>
+    obtain ⟨d', c'⟩ := s'
+    have hframe := (template_touches_only_declared tbl n parts out d d' c c' hk hstep).2.1
+    have := delta_within c c' (fun k => k = out) (by intro k hS; exact hframe k hS)
+    intro k hk'
+    simp only [viewOf, after, hstep] at hk'
+    rcases hk' with h | h
+    · exact this.1 k h
+    · exact this.2 k h
+
+theorem ser_delta_delete (tbl stbl : ResolveTable) (n : Node) (key : String) (s : Data × Ctx)
+    (hk : n.kind = .delete key) (hok : (viewOf tbl stbl n s).ok = true) :
+    (viewOf tbl stbl n s).created = [] ∧ (viewOf tbl stbl n s).updated = [] := by
+  obtain ⟨d, c⟩ := s
+  cases hstep : step tbl n (d, c) with
+  | error e => simp [viewOf, hstep] at hok
+  | ok s' =>
+    obtain ⟨d', c'⟩ := s'
+    obtain ⟨_, hframe, hgone⟩ := delete_touches_only_declared tbl n key d d' c c' hk hstep
+    have hin := delta_within c c' (fun k => k = key) (by intro k hS; exact hframe k hS)
+    simp only [viewOf, after, hstep]
+    refine ⟨List.eq_nil_iff_forall_not_mem.mpr ?_, List.eq_nil_iff_forall_not_mem.mpr ?_⟩
+    · intro k hk'
+      have hkk := hin.1 k hk'
+      have hhas := ((created_iff c c' k).mp hk').1
+      rw [hkk] at hhas
+      have hnone : c'.lookup key = none := hgone
+      simp [Ctx.has, hnone] at hhas
+    · intro k hk'
+      have hkk := hin.2 k hk'
+      obtain ⟨_, b, _, hb, _⟩ := (updated_iff c c' k).mp hk'
+      rw [hkk, hgone] at hb; cases hb
+
+/-- **A probe's SER** (non-slicing) lists only the node's context key. -/
+theorem ser_delta_probe (tbl stbl : ResolveTable) (n : Node) (s : Data × Ctx) (hk : n.kind = .probe) (hs : n.sliced = false)
+    (hok : (viewOf tbl stbl n s).ok = true) :
+    ∀ k, k ∈ (viewOf tbl stbl n s).created ∨ k ∈ (viewOf tbl stbl n s).updated → k = n.contextKey.getD "" := by
+  obtain ⟨d, c⟩ := s
+  cases hstep : step tbl n (d, c) with
+  | error e => simp [viewOf, hstep] at hok
+  | ok s' =>
+    obtain ⟨d', c'⟩ := s'
+    obtain ⟨_, v, hc'⟩ := probe_passes_data tbl n d d' c c' hk hs hstep
+    have := delta_within c c' (fun k => k = n.contextKey.getD "") (by
+      intro k hS; rw [hc']; exact Ctx.get_set_ne c _ k v hS)
+    intro k hk'
+    simp only [viewOf, after, hstep] at hk'
+    rcases hk' with h | h
+    · exact this.1 k h
+    · exact this.2 k h
+
 /-! ## Non-vacuity -/
 
 example : createdKeys [("a", .atom "1")] [("a", .atom "2"), ("b", .atom "3")] = ["b"]
